@@ -16,6 +16,7 @@ import (
 	"io"
 	"log"
 	"strings"
+	"time"
 
 	"qchen.fun/fatchoy/collections/trie"
 	. "verifharness/common"
@@ -37,11 +38,35 @@ func sxRunes(r []rune) Sx {
 	return Ints(v...)
 }
 
+var stuckCalls int // calls that did not return (the harness stops generating after a few)
+
 func run(in Sx) Sx {
 	t := trie.NewHashTrie()
 	obs := make([]Sx, 0, in.Len())
+	stuck := false
 	for _, o := range in.L {
 		var ob Sx
+		if stuck {
+			obs = append(obs, Ints(-8))
+			continue
+		}
+		o := o
+		done := make(chan Sx, 1)
+		go func() { done <- runOp(t, o) }()
+		select {
+		case ob = <-done:
+		case <-time.After(3 * time.Second):
+			stuck = true // the call spins; the trie is abandoned to it
+			stuckCalls++
+			ob = Ints(-8)
+		}
+		obs = append(obs, ob)
+	}
+	return ListOf(obs)
+}
+
+func runOp(t *trie.HashTrie, o Sx) (ob Sx) {
+	{
 		if p, _ := Catch(func() {
 			switch o.At(0).AsInt() {
 			case 0:
@@ -81,9 +106,8 @@ func run(in Sx) Sx {
 		}); p {
 			ob = Ints(-9)
 		}
-		obs = append(obs, ob)
 	}
-	return ListOf(obs)
+	return ob
 }
 
 func main() {
@@ -420,19 +444,25 @@ func gen(a Args, out *Out) {
 			}
 		}
 		pool := g.pool(rng.Range(2, 9))
-		if kind == "wildcard" { // keep a sub-pool whose literal and wildcard branches never compete
-			var p [][]rune
-			for _, w := range pool {
-				ok := true
-				for _, v := range p {
-					ok = ok && compat(w, v)
+		phased := false
+		if kind == "wildcard" {
+			if rng.Bool() { // a sub-pool whose literal and wildcard branches never compete
+				var p [][]rune
+				for _, w := range pool {
+					ok := true
+					for _, v := range p {
+						ok = ok && compat(w, v)
+					}
+					if ok {
+						p = append(p, w)
+					}
 				}
-				if ok {
-					p = append(p, w)
-				}
+				pool = p
+			} else { // any pool; members that compete with a new word are removed before it is added
+				phased = true
 			}
-			pool = p
 		}
+		cur := map[string]bool{}
 		var ops []Sx
 		probeAll := func() {
 			for _, w := range pool {
@@ -445,7 +475,18 @@ func gen(a Args, out *Out) {
 			r := rng.Intn(100)
 			switch {
 			case r < 36:
-				ops = append(ops, List(Int(0), sxRunes(pool[rng.Intn(len(pool))])))
+				w := pool[rng.Intn(len(pool))]
+				if phased {
+					for v := range cur {
+						if !compat(w, []rune(v)) {
+							ops = append(ops, List(Int(1), sxRunes([]rune(v))))
+							delete(cur, v)
+							out.Count("op:remove-competitor")
+						}
+					}
+				}
+				cur[string(w)] = true
+				ops = append(ops, List(Int(0), sxRunes(w)))
 				out.Count("op:add")
 			case r < 58:
 				w := pool[rng.Intn(len(pool))]
@@ -460,6 +501,7 @@ func gen(a Args, out *Out) {
 					}
 				}
 				ops = append(ops, List(Int(1), sxRunes(w)))
+				delete(cur, string(w))
 				out.Count("op:remove")
 				removes++
 				if rng.Chance(2, 3) {
@@ -474,6 +516,7 @@ func gen(a Args, out *Out) {
 				out.Count("op:probe")
 			case r < 99:
 				ops = append(ops, List(Int(2)))
+				cur = map[string]bool{}
 				out.Count("op:reset")
 			default:
 				ops = append(ops, List(Int(0), sxRunes(nil))) // AddWord("")
@@ -486,7 +529,16 @@ func gen(a Args, out *Out) {
 		}
 		probeAll()
 		in := ListOf(ops)
-		out.Case(kind, removes > 0 && queries > 0, in, run(in))
+		before := stuckCalls
+		ob := run(in)
+		out.Case(kind, removes > 0 && queries > 0, in, ob)
+		if stuckCalls > before {
+			out.Violation("C14/hang/"+kind, "a call (Contains/ExactMatch/Filter/AddWord/Remove) did not return within 3 s", List(in, ob))
+		}
+		if stuckCalls >= 2 {
+			out.Note("generation stopped: %d calls did not return", stuckCalls)
+			return
+		}
 	}
 	nb := 40
 	if a.Thorough() {
